@@ -11,7 +11,7 @@ Not decided: value-level path arithmetic in add_data (dirname/basename strings),
 import re
 from engine import op_place
 from terms import TermBuilder, render
-from common import fmt_key
+from common import fmt_key, ok_assign_blocks, reach_from, switch_info
 from c01 import agg_fields
 from c08 import index_entries
 from c05 import TAG_TYPE, SCRIPTS, DEPS
@@ -201,6 +201,50 @@ def run(f, fixture, rep, cfg, tier):
         rep.check(oks == ["std::os::unix::fs::PermissionsExt::mode(std::fs::Metadata::permissions(std::fs::File::metadata(file)<Ok>.0))"], "R2", "file_mode|verbatim",
                   "file_mode returns the st_mode of the open file, unmasked", "file_mode returns %s" % [o[:200] for o in oks], fmb.span)
 
+    # ---- R1 a given optional value is emitted whatever else was (not) given -----------------------------------------------------
+    # the row of an optional field may depend on one test only: "this field is set".  A table-driven emission that stops at the
+    # first unset field (`map_while`, `break`) or skips after one makes a given value depend on its neighbours.
+    oks_pd = set(ok_assign_blocks(pd))
+    rc_ = {}
+
+    def reach_(b_):
+        if b_ not in rc_:
+            rc_[b_] = reach_from(pd, b_)
+        return rc_[b_]
+    opt_rows = []
+    for field, spec_ in SCALARS.items():
+        if "self.%s<Some>.0" % field in spec_[1]:
+            for (d_, c_) in by_tag.get(spec_[0], []):
+                opt_rows.append((field, spec_[0], c_))
+    for c_ in pd.calls():
+        if c_.decl.endswith("Scriptlet::apply"):
+            m_ = re.match(r"self\.(\w+)<Some>\.0$", render(tb.term(c_.args[0])))
+            if m_:
+                opt_rows.append((m_.group(1), "scriptlet", c_))
+    n_gated = 0
+    for (field, tag, c_) in opt_rows:
+        if c_.body is not pd:
+            continue
+        for d_ in sorted(pd.reachable()):
+            t_ = pd.term(d_)
+            if t_["t"] != "switch" or not pd.dominates(d_, c_.bb):
+                continue
+            away = [s_ for s_ in pd.succ(d_) if c_.bb not in reach_(s_)]
+            if not away or not any(reach_(s_) & oks_pd for s_ in away):
+                continue
+            info = switch_info(pd, d_)
+            if info["kind"] == "bool" and info["call"].args:
+                g_ = render(tb.term(info["call"].args[0]))
+            elif info["kind"] in ("discr", "value"):
+                g_ = render(tb.term(info["place"]))
+            else:
+                dpl_ = op_place(t_["d"])
+                g_ = render(tb.term(dpl_)) if dpl_ is not None else "?"
+            n_gated += 1
+            rep.check(g_ == "self.%s" % field, "R1", "emitted-when-given|%s|%s" % (field, g_[:60]), "the %s row is emitted exactly when %s is set" % (tag, field),
+                      "whether the given `%s` reaches the header also depends on `%s`: a value supplied to the builder is dropped when that test fails" % (field, g_[:100]), c_.loc())
+    rep.floor("R1", "presence tests guarding optional rows", n_gated, 10)
+
     # ---- R1 no dropped input -----------------------------------------------------------------------------
     all_terms = " ".join(d for (_t, d, _c) in ents)
     for c in pd.calls():
@@ -224,7 +268,6 @@ def run(f, fixture, rep, cfg, tier):
     wf = f.one("PackageBuilder::with_file")
     t_ad = " ".join(v for v in (ag[0].values() if ag else [])) + " ".join(render(TermBuilder(ad).term(a)) for c in ad.calls() for a in c.args)
     t_wf = " ".join(render(TermBuilder(wf).term(a)) for c in wf.calls() for a in c.args)
-    from common import switch_info
     for sb in wf.reachable():
         t = wf.term(sb)
         if t["t"] == "switch" and op_place(t["d"]) is not None:
